@@ -378,6 +378,68 @@ def sandbox(srv, res, known):
 
 
 # --------------------------------------------------------------------------- D
+def effects_on_other_clients(srv, res, known):
+    """redis.call of a command has the same effect as the direct command - also the part of the effect
+    that lands on OTHER clients: a push serves a client blocked on the key, a PUBLISH reaches the
+    subscribers, a write to a watched key aborts the watcher's EXEC."""
+    c = srv.client(timeout=10)
+    for form in ("direct", "EVAL", "EVALSHA", "EVAL-pcall"):
+        def run(*argv):
+            if form == "direct":
+                return c.cmd(*argv)
+            script = b"return redis.pcall(unpack(ARGV))" if form == "EVAL-pcall" else b"return redis.call(unpack(ARGV))"
+            if form == "EVALSHA":
+                return c.cmd(b"EVALSHA", c.cmd(b"SCRIPT", b"LOAD", script), b"0", *argv)
+            return c.cmd(b"EVAL", script, b"0", *argv)
+        for db in (0, 3):
+            c.cmd("SELECT", db)
+            for pop, push in ((b"BLPOP", b"RPUSH"), (b"BRPOP", b"LPUSH")):
+                w = srv.client(timeout=5)
+                w.cmd("SELECT", db)
+                c.cmd("DEL", "eo:q")
+                w.send(pop, b"eo:q", b"0")
+                server.wait_loops(c, 3)
+                run(push, b"eo:q", b"elem")
+                got = w.try_recv(2.0)
+                left = c.cmd("LLEN", "eo:q")
+                w.close()
+                res.evaluations += 1
+                res.cell("other-clients", "blocked-waiter", form, "db%d" % db)
+                if got != [b"eo:q", b"elem"] or left != 0:
+                    _report(res, known, "other-clients/waiter-not-served/%s" % form,
+                            "a client blocked in %s eo:q 0 (db %d); %s eo:q elem sent as %s: the waiter got %s, LLEN afterwards %r (a direct push serves it at once)" % (
+                                pop.decode(), db, push.decode(), form, resp.show(got), left))
+            s1 = srv.client(timeout=5)
+            s1.cmd("SUBSCRIBE", "eo:chan")
+            s1.send("PSUBSCRIBE", "eo:*")
+            s1.recv()
+            n = run(b"PUBLISH", b"eo:chan", b"hello")
+            msgs = [s1.try_recv(1.0), s1.try_recv(0.3)]
+            s1.close()
+            res.evaluations += 1
+            res.cell("other-clients", "publish", form)
+            if form != "direct" and isinstance(n, Err) and b"unknown command" in n.s.lower():
+                _report(res, known, "other-clients/publish/unavailable-in-scripts", "redis.call('PUBLISH', ...) -> %s although PUBLISH is a command of this server" % resp.show(n))
+            elif n != 2 or sorted(map(repr, msgs)) != sorted(map(repr, [[b"message", b"eo:chan", b"hello"], [b"pmessage", b"eo:*", b"eo:chan", b"hello"]])):
+                _report(res, known, "other-clients/publish/%s" % form, "PUBLISH eo:chan hello sent as %s with one channel and one pattern subscription: reply %r, subscriber received %s" % (
+                    form, n, resp.show(msgs)))
+            wt = srv.client(timeout=5)
+            wt.cmd("SELECT", db)
+            c.cmd("SET", "eo:w", "1")
+            wt.cmd("WATCH", "eo:w")
+            run(b"APPEND", b"eo:w", b"x")
+            wt.cmd("MULTI")
+            wt.cmd("PING")
+            ex = wt.cmd("EXEC")
+            wt.close()
+            res.evaluations += 1
+            res.cell("other-clients", "watch", form)
+            if ex is not NULL_ARRAY:
+                _report(res, known, "other-clients/watch-not-aborted/%s" % form, "WATCH eo:w by another client; APPEND eo:w x sent as %s; its EXEC -> %s, expected nil" % (form, resp.show(ex)))
+    c.cmd("SELECT", 0)
+    c.close()
+
+
 def atomicity(srv, res, known, budget_s, wseed):
     stop = threading.Event()
     problems = []
@@ -474,6 +536,8 @@ def worker(wseed, binary, budget_s, idx):
             sandbox(b, res, known)
         if idx == 1:
             atomicity(b, res, known, min(budget_s, 15), wseed)
+        if idx == 2:
+            effects_on_other_clients(b, res, known)
         t_end = time.time() + budget_s
         n = 0
         while time.time() < t_end:
@@ -641,7 +705,8 @@ def run(tier):
                        "ARGV byte-for-byte for all 256 byte values / empty / 64 KB / invalid UTF-8, SET through KEYS+ARGV read back "
                        "directly, EVALSHA = EVAL and sha1 in 4 DBs); C: 34 sandbox probes (io, os, require, package, dofile, loadfile, "
                        "load, debug, bytecode, blocking / connection / admin commands) must fail, canary file and directory untouched, "
-                       "child alive; D: 15 s of busy-loop scripts (3 writers) vs single-MGET readers: a=b and x+y=0 always; thorough: "
+                       "child alive; E: the effect of a command sent through a script on OTHER clients (push serves a blocked waiter, PUBLISH "
+                       "reaches channel and pattern subscribers, write aborts a watcher) = that of the direct command, in 2 DBs; D: 15 s of busy-loop scripts (3 writers) vs single-MGET readers: a=b and x+y=0 always; thorough: "
                        "%d hostile scripts (EVAL and EVALSHA) plus parts B and C against the server under valgrind memcheck, error "
                        "blocks counted from its log; " % len(HOSTILE_LUA) +
                        
